@@ -265,3 +265,37 @@ func VH_C08_threshold() {
 		vAssert("C08.t.command-reports-the-pair", rows == 2)
 	}
 }
+
+// VH_C08_target_filter: --threshold-target and --ignore. One query (one SNP) and one target sharing that SNP and
+// carrying a ambiguous symbols (a symbolic 0..4) at columns where neither has a SNP, so that the pair threshold is
+// not involved: the target is reported exactly when a does not exceed --threshold-target T (T symbolic 0..3) and
+// its name is not on the ignore list.
+func VH_C08_target_filter() {
+	a := vChoice("targetAmbiguities", 5)
+	T := vChoice("thresholdTarget", 4)
+	ignored := vBool("ignored")
+	target := []byte("CAAAAAAAAA")
+	for i := 0; i < a; i++ {
+		target[2+i] = "NR-?Y"[i]
+	}
+	var ignore []string
+	if ignored {
+		ignore = []string{"other", "t"}
+	}
+	w := &vCapture{}
+	qf := []byte(">q\nCAAAAAAAAA\n")
+	tf := append(append([]byte(">t\n"), target...), '\n')
+	err := TopRanking(bytes.NewReader(qf), bytes.NewReader(tf), bytes.NewReader([]byte(">ref\nAAAAAAAAAA\n")), w, true, "fasta", "fasta", ignore, 0, 0, 0, 0, 0, 5, 0, 0, 0, 0.5, T, false, 0)
+	vAssert("C08.f.command-ok", err == nil)
+	rows := 0
+	for _, c := range w.buf {
+		if c == '\n' {
+			rows++
+		}
+	}
+	if a > T || ignored {
+		vAssert("C08.f.target-over-threshold-or-ignored-is-not-reported", rows == 1)
+	} else {
+		vAssert("C08.f.target-within-threshold-is-reported", rows == 2)
+	}
+}
